@@ -36,6 +36,30 @@ SYM = {"N": 2, "M": 3, "K": 1}
 SCALAR = {"e": "f32", "d": []}
 
 
+def covered_code_changes(ck):
+    """tie G for `build` itself: regenerate the statement list of `_public.build`
+    (Generated/BuildFrontIR.lean, obligation `generated_build_good`) and compare the normalised-AST
+    digests of the functions the front-end model covers with the committed ones. Returns the list
+    of covered functions whose code differs from what the model was written against (evidence; the
+    checks then run with larger counts). Never raises."""
+    import json
+    from pathlib import Path
+
+    try:
+        from translator import build_front_ir
+
+        info = build_front_ir.generate()
+        ck.cov["generated_build_statements"] = info["ir"]
+        pinned = json.loads((Path(__file__).parent / "pinned_c03c12_digests.json").read_text())
+        changed = sorted(k for k in set(pinned) | set(info["digests"]) if pinned.get(k) != info["digests"].get(k))
+        ck.cov["covered_functions"] = len(info["digests"])
+        ck.cov["covered_functions_changed"] = changed
+        return changed
+    except Exception as e:  # noqa: BLE001
+        ck.broken("translator", "translator/build_front_ir.py could not read src/spox", f"{type(e).__name__}: {e}")
+        return ["<unreadable>"]
+
+
 # ----------------------------------------------------------------------------- types
 def ty_str(ty) -> str:
     """Canonical rendering of an abstract type: '<onnx elem code>:[d0,d1,…]' ('?' = unknown dim),
